@@ -50,7 +50,11 @@ fn via<C: CustomMsg>(tag: &str) -> StdResult<Response<C>> {
         .add_message(stargate)
         .add_message(any)
         .add_submessage(cosmwasm_std::SubMsg::reply_on_error(cosmwasm_std::IbcMsg::CloseChannel { channel_id: "channel-1".into() }, 7).with_payload(b"pl".to_vec()))
-        .add_submessage(cosmwasm_std::SubMsg::reply_always(cosmwasm_std::GovMsg::Vote { proposal_id: 1, option: cosmwasm_std::VoteOption::Yes }, 8).with_gas_limit(77_000)))
+        .add_submessage(cosmwasm_std::SubMsg::reply_always(cosmwasm_std::GovMsg::Vote { proposal_id: 1, option: cosmwasm_std::VoteOption::Yes }, 8).with_gas_limit(77_000))
+        // ids at the ends of the range, with the two remaining reply_on modes
+        .add_submessage(cosmwasm_std::SubMsg::reply_on_success(BankMsg::Burn { amount: vec![coin(1, "x")] }, 0))
+        .add_submessage(cosmwasm_std::SubMsg::reply_never(BankMsg::Burn { amount: vec![coin(2, "x")] }))
+        .add_submessage(cosmwasm_std::SubMsg::reply_on_error(BankMsg::Burn { amount: vec![coin(3, "x")] }, u64::MAX)))
 }
 pub fn w_exec_c(_: DepsMut<WQuery>, _: Env, _: MessageInfo, _: Empty) -> StdResult<Response<WMsg>> {
     via("exec_c")
